@@ -153,6 +153,17 @@ def main(argv=None):
     if prop == "selftest":
         from pyvc import selftest
         return selftest.main(tier, seed)
+    if prop == "lemmas":
+        # the arithmetic facts the encoding instantiates as axioms (DESIGN.md section 5), re-checked by Lean 4 + Mathlib
+        import subprocess
+        f = os.path.join(ROOT, "lemmas", "PysnarkLemmas.lean")
+        p = subprocess.run(["lean", f], stdout=subprocess.PIPE, stderr=subprocess.STDOUT, timeout=3000)
+        out = p.stdout.decode(errors="replace")
+        bad = p.returncode != 0 or "error" in out or "sorry" in out
+        n = len([l for l in open(f) if l.startswith(("theorem", "lemma"))])
+        print(out[-2000:] if bad else "", end="")
+        print("lemmas file=%s theorems=%d lean_exit=%d wall=%.1fs exit=%d" % (os.path.relpath(f, ROOT), n, p.returncode, time.time() - t0, 3 if bad else 0))
+        return 3 if bad else 0
     handler = PR.SPECIAL.get(prop)
     if handler is not None:
         return handler(prop, tier, seed, a)
